@@ -257,10 +257,7 @@ class ImmutableFileNode:
             return False
 
     def __ne__(self, other):
-        if isinstance(other, ImmutableFileNode):
-            return self.u.__eq__(other.u)
-        else:
-            return True
+        return not (self == other)
 
     def read(self, consumer, offset=0, size=None):
         decryptor = DecryptingConsumer(consumer, self._readkey, offset)
